@@ -532,6 +532,7 @@ def analyse(m, stats=None, want_path=True):
 
 _STATE = {"installed": False, "stack": [], "done": [], "keep": False, "round_cap": None}
 ROUND_CAP_TINY = 6
+ROUND_CAP_REAL = 8
 
 
 class RoundCap(Exception):
@@ -1232,7 +1233,7 @@ def compile_real(target, src, level):
         import contextlib
         with contextlib.redirect_stdout(io.StringIO()), contextlib.redirect_stderr(io.StringIO()):     # the C front end prints warnings
             return cc(io.StringIO(src), get_arch(target), opt_level=level)
-    return record(go)
+    return record(go, round_cap=ROUND_CAP_REAL)
 
 
 def run_real(p, target, name, level, stats, want_path=True):
@@ -1249,7 +1250,10 @@ def run_real(p, target, name, level, stats, want_path=True):
         p.count("real_cpu_timeouts")
         p.collect("real_timeouts", "%s/%s/O%s" % (target, name, level))
         return out
-    if isinstance(res, Exception):
+    if isinstance(res, RoundCap):
+        p.count("real_unjudged_more_than_%d_spill_rounds" % ROUND_CAP_REAL)
+        p.collect("real_round_cap", "%s/%s" % (target, name))
+    elif isinstance(res, Exception):
         p.count("real_compile_fails")
         p.collect("real_compile_errors", "%s: %s" % (target, exc_key("cc", res)))
     for rec in recs:
@@ -1300,7 +1304,8 @@ def usable_ops(target, ty):
         from vf.gen import irgen
         ok = []
         for op in IR_OPS:
-            d = {"name": "m", "functions": [{"name": "f", "ret": ty, "params": [ty, ty], "blocks": [[["bin", op, "p0", "p1", ty], ["ret", "%0"]]]}]}
+            d = {"name": "m", "functions": [{"name": "f", "ret": ty, "params": [ty, ty], "blocks": [[["bin", op, "p0", "p1", ty], ["bin", op, "%0", "p0", ty],
+                                                                                                    ["bin", op, "%1", "%0", ty], ["ret", "%2"]]]}]}
             try:
                 with contextlib.redirect_stdout(io.StringIO()), contextlib.redirect_stderr(io.StringIO()):
                     ir_to_object([irgen.build(d)], get_arch(target))
@@ -1402,7 +1407,7 @@ def compile_ir(target, name):
         m = irgen.build(ir_case(name, target))
         with contextlib.redirect_stdout(io.StringIO()), contextlib.redirect_stderr(io.StringIO()):
             return ir_to_object([m], get_arch(target))
-    return record(go)
+    return record(go, round_cap=ROUND_CAP_REAL)
 
 
 def real_worker(p, shard):
